@@ -51,12 +51,13 @@ def dictify_all_complex_values(data: dict) -> dict:
     return convert(data)
 
 def undictify_all_complex_values(data: dict) -> dict:
-    for key, value in data.items():
+    def convert(value):
         if isinstance(value, dict):
-            data[key] = undictify_all_complex_values(value)
+            return undictify_complex_values({'value': {k: convert(v) for k, v in value.items()}})['value']
         if isinstance(value, list):
-            data[key] = [undictify_all_complex_values(v) for v in value]
-    return undictify_complex_values(data)
+            return [convert(v) for v in value]
+        return value
+    return undictify_complex_values({k: convert(v) for k, v in data.items()})
 
 def serialize(data: T, format: str, dict_processor: Callable[[T], dict] = dictify_all_complex_values) -> str:
     serializer = serializers.get(format, None)
